@@ -28,7 +28,7 @@ structure DState where
 
 def dateCmds : List String :=
   ["sched", "lookup", "yearly", "eoy", "monthly", "nsteps", "final", "spread", "fromstring",
-   "weather", "actionstep", "count", "unit"]
+   "weather", "actionstep", "count", "unit", "cfgsched"]
 
 def step (st : DState) (line : String) : DState × String :=
   let (inp, obs) := splitLine line
